@@ -4,6 +4,10 @@
 // One record per operation; the observation is taken at quiescence (synctest.Wait) and contains
 //   <status|pending> <Mcp-Session-Id of the response|-> done:<async completions> map:<h.sessions>
 //   srv:<Server.Sessions()> log:<handler invocations during this operation>
+// Op `postx <user> <kind>` is a creating POST during which the server closes the new session in the
+// window between Server.Connect and its publication in h.sessions (F20): the request context's Value
+// method — consulted by auth.TokenInfoFromContext exactly there — closes every server session that
+// is not yet a key of h.sessions.
 // Session ids are renamed s1,s2,... in the order GetSessionID minted them (the default generator is
 // wrapped, not replaced). Users: anon (no TokenInfo), ue (TokenInfo with empty UserID), u1..u3; the
 // TokenInfo is put into the request context by the real auth.RequireBearerToken middleware.
@@ -62,6 +66,21 @@ func (r *sxRec) result() (int, string) {
 	}
 	return st, r.hdr.Get(sessionIDHeader)
 }
+
+// sxHookCtx runs f when the handler looks the TokenInfo up (auth.TokenInfoFromContext).
+type sxHookCtx struct {
+	context.Context
+	f func()
+}
+
+func (c sxHookCtx) Value(k any) any {
+	if fmt.Sprintf("%T", k) == "auth.tokenInfoKey" {
+		c.f()
+	}
+	return c.Context.Value(k)
+}
+
+const sxRaceHeader = "X-Verif-Close-Unpublished"
 
 type sxAsync struct {
 	tag    string // p<slot> (slow POST), d<n> (DELETE), c<n> (server-side close), q<n> (other request)
@@ -164,10 +183,31 @@ func newSxWorld(stateless bool, timeoutMS int) *sxWorld {
 		}
 		return &auth.TokenInfo{UserID: strings.TrimPrefix(token, "tok-"), Expiration: time.Now().Add(time.Hour)}, nil
 	}
-	authed := auth.RequireBearerToken(verifier, nil)(w.h)
+	inner := http.HandlerFunc(func(rw http.ResponseWriter, req *http.Request) {
+		if req.Header.Get(sxRaceHeader) != "" {
+			// postx: a server-side close lands between Connect and the publication of the new session
+			fired := false
+			req = req.WithContext(sxHookCtx{req.Context(), func() {
+				if fired {
+					return
+				}
+				for ss := range w.server.Sessions() {
+					w.h.mu.Lock()
+					_, published := w.h.sessions[ss.ID()]
+					w.h.mu.Unlock()
+					if !published && ss.ID() != "" {
+						fired = true
+						ss.Close()
+					}
+				}
+			}})
+		}
+		w.h.ServeHTTP(rw, req)
+	})
+	authed := auth.RequireBearerToken(verifier, nil)(inner)
 	w.front = http.HandlerFunc(func(rw http.ResponseWriter, req *http.Request) {
 		if req.Header.Get("Authorization") == "" {
-			w.h.ServeHTTP(rw, req) // anonymous: no TokenInfo in the context
+			inner.ServeHTTP(rw, req) // anonymous: no TokenInfo in the context
 			return
 		}
 		authed.ServeHTTP(rw, req)
@@ -370,6 +410,11 @@ func (w *sxWorld) apply(toks []string) (obs string) {
 		}
 	}()
 	head := ""
+	race := false
+	if toks[0] == "postx" {
+		toks = []string{"post", "-", toks[1], toks[2]}
+		race = true
+	}
 	switch toks[0] {
 	case "post":
 		ref, user, kind := toks[1], toks[2], toks[3]
@@ -386,6 +431,9 @@ func (w *sxWorld) apply(toks []string) (obs string) {
 			tag = fmt.Sprintf("q%d", w.nasync)
 		}
 		req, cancel := w.request(http.MethodPost, ref, user, w.body(kind, slot))
+		if race {
+			req.Header.Set(sxRaceHeader, "1")
+		}
 		a := w.start(tag, req, cancel)
 		synctest.Wait()
 		if a.finished() {
@@ -633,6 +681,10 @@ func (g *sxGen) next() (op string, tags []string) {
 			return fmt.Sprintf("post - %s init", sxUsers[g.rng.Intn(4)]), []string{"post-init", "id-noid"}
 		}
 	}
+	if !g.stateless && g.rng.Intn(100) < 4 {
+		kind := []string{"init", "init", "init", "ping", "badinit", "slow"}[g.rng.Intn(6)]
+		return fmt.Sprintf("postx %s %s", sxUsers[g.rng.Intn(len(sxUsers))], kind), []string{"postx-" + kind, "id-noid"}
+	}
 	r := g.rng.Intn(100)
 	switch {
 	case r < 40:
@@ -678,7 +730,7 @@ func (g *sxGen) learn(op []string, obs string) {
 		d, _ := strconv.Atoi(op[1])
 		g.now += d
 	}
-	if op[0] == "post" && op[3] == "slow" {
+	if (op[0] == "post" && op[3] == "slow") || (op[0] == "postx" && op[2] == "slow") {
 		g.nslow++
 	}
 	i := strings.Index(obs, "map:")
@@ -818,7 +870,7 @@ func TestVerifSessions(t *testing.T) {
 			}
 		}
 	}
-	n := verifN(2500, 30000)
+	n := verifN(2500, 20000)
 	for c := 0; c < n; c++ {
 		rng := verifRng(int64(c))
 		g := &sxGen{rng: rng, timeout: 100}
